@@ -369,11 +369,14 @@ struct Transport::Impl
             {
               return; // M-3: don't grow a buffer no one will drain
             }
-            if (bufIt->second->data.size() + data.size() > config.maxSyncReceiveBuffer)
+            if (bufIt->second->overflow ||
+                bufIt->second->data.size() + data.size() > config.maxSyncReceiveBuffer)
             {
               // Overflow: surface a distinct error to the parked waiter instead
               // of silently dropping (which would only fail at the caller's
-              // timeout with no diagnostic). N-2.
+              // timeout with no diagnostic). N-2. Overflow is terminal: once a
+              // chunk was dropped, later chunks that would fit are dropped too,
+              // so bytes from after the gap are never delivered as contiguous.
               bufIt->second->overflow = true;
               bufIt->second->cv.notify_all();
               return;
